@@ -258,7 +258,7 @@ type c08Seq struct {
 // step executes op on the implementation, appends it (with the observation) to the trace and
 // lets the oracle validate it.  Returns false when the case is over (disagreement recorded).
 func (s *c08Seq) step(op c08Op) (bool, error) {
-	kind := ""
+	kind := "pipe-writer"
 	if op.K == "recv" || op.K == "close" || op.K == "conv" || op.K == "copy" {
 		kind = c08KindOf(s.st, op.R)
 	}
@@ -275,7 +275,7 @@ func (s *c08Seq) step(op c08Op) (bool, error) {
 	if status != "" {
 		head := strings.SplitN(status, ":", 2)[0]
 		s.ctx.Res.Disagree(vh.Disagreement{Signature: fmt.Sprintf("C08:%s:%s:kind=%s", head, op.K, kind),
-			What: fmt.Sprintf("%s on a %s reader/writer: %s (the model says the call returns)", op.K, kind, status),
+			What: fmt.Sprintf("op #%d %s on a %s: %s (the model says the call returns)", len(s.c.Ops)-1, op.K, kind, status),
 			Case: s.c, Model: s.st, Impl: status})
 		s.bad = true
 		return false, nil
@@ -287,7 +287,7 @@ func (s *c08Seq) step(op c08Op) (bool, error) {
 	if !rep.Ok {
 		if strings.HasPrefix(rep.Why, "mismatch:") {
 			s.ctx.Res.Disagree(vh.Disagreement{Signature: fmt.Sprintf("C08:%s:kind=%s", strings.TrimPrefix(rep.Why, "mismatch:"), kind),
-				What:  fmt.Sprintf("op #%d %s on a %s reader: implementation returned %v, the model allows %s", rep.At, op.K, kind, c08Obs(op), c08Allowed(rep)),
+				What:  fmt.Sprintf("op #%d %s on a %s: implementation returned %v, the model allows %s", rep.At, op.K, kind, c08Obs(op), c08AllowedFor(op, rep)),
 				Case:  s.c, Model: map[string]any{"why": rep.Why, "allowed": rep.Allowed}, Impl: c08Obs(op)})
 			s.bad = true
 			return false, nil
@@ -299,6 +299,16 @@ func (s *c08Seq) step(op c08Op) (bool, error) {
 	}
 	s.st = rep
 	return true, nil
+}
+
+func c08AllowedFor(op c08Op, rep *c08Reply) string {
+	if op.K == "send" {
+		if op.Closed {
+			return "closed=false only (a reader derived from this pipe is still open)"
+		}
+		return "closed=true only (every reader derived from this pipe is closed)"
+	}
+	return c08Allowed(rep)
 }
 
 func c08Allowed(rep *c08Reply) string {
